@@ -132,6 +132,7 @@ theorem doScheduledAction_event {st st' : St σ} {target : Int} {e : SimEvent}
   · cases h
   · rename_i isClient i a hfound
     have hslot : (st.side isClient).schedAction[i]? = some (some a) ∧ a.time = target := by
+      unfold findAction at hfound
       split at hfound
       · rename_i j b hf
         cases hfound
